@@ -69,19 +69,46 @@ Theorem C01_shortcut_sound : forall csz vs, Forall (fun v => wf_val v = true) vs
 Proof. exact shortcut_sound. Qed.
 Print Assumptions C01_shortcut_sound.
 
-(* ... FULL STATEMENT for the flushed block (the length recorded at ingest time is still the length
-   of every record after consolidateColumnTypes): REFUTED.  {"a":5},{"a":"abcdef"},{"a":1.5} all
-   encode to 9 bytes; the block is rewritten as text "5","abcdef","1.5" (4, 9, 6 bytes); the reader
-   that is given 9 returns bytes cut at multiples of 9 and then runs out of the buffer.  (The
-   match-all record fetch passes no constant length; filter search on rotated segments does.) *)
-Theorem C01_shortcut_after_consolidation_refuted :
+(* ... which consolidateColumnTypes can break: {"a":5},{"a":"abcdef"},{"a":1.5} all encode to 9 bytes;
+   the block is rewritten as text "5","abcdef","1.5" (4, 9, 6 bytes); a reader that is given 9 returns
+   bytes cut at multiples of 9 and then runs out of the buffer.  (The match-all record fetch passes no
+   constant length; filter search on rotated segments does.) *)
+Theorem C01_text_conversion_changes_record_lengths :
   exists fc vs, Forall (fun v => length (enc_val v) = 9%nat) vs /\
     let buf := concat (map enc_val vs) in
     let b := to_strings fc (S (length buf)) buf in
     to_numbers fc (S (length buf)) buf = None /\
     raw_records 9 (length vs) b <> raw_records INCONSISTENT (length vs) b.
 Proof. exact shortcut_after_consolidation_refuted. Qed.
-Print Assumptions C01_shortcut_after_consolidation_refuted.
+Print Assumptions C01_text_conversion_changes_record_lengths.
+
+(* The writer therefore has to give up the constant length of such a column.  The repaired code
+   ([pre = false]) sets AllSeenColumnSizes to INCONSISTENT when convertColumnToStrings rewrote the
+   column, and counts the null records of backFillPastRecords: on the two witnesses below column a
+   ends INCONSISTENT, while column b (an int in every record) keeps 9. *)
+Theorem C01_seen_size_after_repair :
+  seen_after false w_seen_text ka = Some INCONSISTENT /\
+  seen_after false w_seen_late ka = Some INCONSISTENT /\
+  seen_after false w_seen_late kb = Some 9.
+Proof. exact (conj (proj1 (proj2 seen_witness)) (proj2 (proj2 (proj2 seen_witness)))). Qed.
+Print Assumptions C01_seen_size_after_repair.
+
+(* PRE-FIX documentation ([pre = true], no longer the code; class
+   constant_length_shortcut_after_text_conversion, a regression is reported by the harness):
+   AllSeenColumnSizes said 9 for column a although (1) the flushed block holds records of 4, 9 and 6
+   bytes and the reader that is given 9 fails, (2) the second block {"b":1},{"a":6,"b":2} of the
+   segment starts column a with a back-filled 1-byte null. *)
+Theorem C01_prefix_seen_size_refuted :
+  (exists blocks k, get k (st_seen (snd (ingest_blocks fc_w true 501 (init_store []) blocks))) = Some 9 /\
+     exists fb blk recs, nth_error (fst (ingest_blocks fc_w true 501 (init_store []) blocks)) 0 = Some fb /\
+       get k (fb_cols fb) = Some blk /\ read_col INCONSISTENT 3 blk = Some recs /\
+       map (@length N) recs = [4; 9; 6]%nat /\ read_col 9 3 blk = None) /\
+  (exists blocks k, get k (st_seen (snd (ingest_blocks fc_w true 501 (init_store []) blocks))) = Some 9 /\
+     exists fb blk recs, nth_error (fst (ingest_blocks fc_w true 501 (init_store []) blocks)) 1 = Some fb /\
+       get k (fb_cols fb) = Some blk /\ read_col INCONSISTENT 2 blk = Some recs /\
+       map (@length N) recs = [1; 9]%nat).
+Proof. exact prefix_seen_size_refuted. Qed.
+Print Assumptions C01_prefix_seen_size_refuted.
 
 (* ---------- the store ---------- *)
 
@@ -89,10 +116,13 @@ Print Assumptions C01_shortcut_after_consolidation_refuted.
    exactly the events, positionally: record i of column k of block j is the value event i of block j
    sent under k (absent = null), with the timestamp sent; a number may come back as its decimal
    text when the block column also holds a non-numeric string; nothing else.
-   The faithful model violates it in three ways (refuted below), so the proved variant carries the
-   boolean guard [block_ok]: per block, 1..65535 events; per event, distinct flattened keys, values
-   as the JSON ingest path produces them (no uint64), timestamp in (0, 2^64); per block column, no
-   number together with a number-looking string and no number together with a bool.
+   The faithful model violates it in two ways (refuted below; both are documented semantics of
+   consolidateColumnTypes and stay known findings), so the proved variant carries the boolean
+   guard [block_ok]: per block, 1..65535 events; per event, values as the JSON ingest path produces
+   them (no uint64), timestamp in (0, 2^64); per block column, no number together with a
+   number-looking string and no number together with a bool.
+   Flattened keys need NOT be distinct any more: the repaired doLogEventFilling keeps the first value
+   of a key that occurs twice in one event ([colview] = first value) and nothing else moves.
    [fc] = strconv.ParseFloat / FormatFloat (FormatFloat's output shorter than 65533 bytes);
    [card] = the dictionary cardinality limit (uint16; 501 by default); [blooms] = the columns that
    already have a bloom index from earlier segments of the same stream (any set).
@@ -101,7 +131,7 @@ Theorem C01_store_roundtrip_guarded : forall (fc : fconv),
   (forall b, N.of_nat (length (ff fc b)) < 65533) ->
   forall card, card < 65536 -> forall blooms (blocks : list (list event)),
   Forall (fun evs => block_ok fc evs = true) blocks ->
-  exists outs, read_all (fst (ingest_blocks fc card (init_store blooms) blocks)) = Some outs /\
+  exists outs, read_all (fst (ingest_blocks fc false card (init_store blooms) blocks)) = Some outs /\
     Forall2 (fun evs out =>
                fst out = map ev_ts evs /\
                forall k, col_allowed fc (colview k evs)
@@ -121,16 +151,25 @@ Theorem C01_guard_nonvacuous :
 Proof. exact guard_nonvacuous. Qed.
 Print Assumptions C01_guard_nonvacuous.
 
-(* REFUTED without "distinct keys" (confirmed defect, class duplicate_key_shifts_column):
-   {"a":7,"a":8,"z":"p"} then {"a":9,"z":"q"} with the cardinality limit reached (raw block):
-   column a returns 7, 8 — the second event's 9 is replaced by the first event's second value. *)
-Theorem C01_store_roundtrip_refuted_dupkey :
+(* a duplicated key after the repair: {"a":7,"a":8,"z":"p"} then {"a":9,"z":"q"} returns a = 7, 9 with a
+   raw block (limit 2) and with a dictionary block (limit 501) *)
+Theorem C01_duplicate_key_keeps_first_value :
+  out_col (match run_read fc_w 2 [] w_dup with Some o => o | None => [] end) 0 ka = [VInt 7; VInt 9] /\
+  out_col (match run_read fc_w 501 [] w_dup with Some o => o | None => [] end) 0 ka = [VInt 7; VInt 9].
+Proof. exact dupkey_fixed_witness. Qed.
+Print Assumptions C01_duplicate_key_keeps_first_value.
+
+(* PRE-FIX documentation ([pre = true], no longer the code; class duplicate_key_shifts_column, a
+   regression is reported by the harness): the second value of the duplicated key was appended to the
+   column as one more record; with the cardinality limit reached (raw block) column a returned 7, 8 —
+   the second event's 9 was replaced by the first event's second value. *)
+Theorem C01_prefix_dupkey_refuted :
   exists fc card blocks outs,
-    Forall (Forall (fun e => forallb (fun kv => ingest_val (snd kv)) (ev_fields e) && ts_ok (ev_ts e) = true)) blocks /\
-    read_all (fst (ingest_blocks fc card (init_store []) blocks)) = Some outs /\
+    Forall (Forall (fun e => event_ok e = true)) blocks /\
+    read_all (fst (ingest_blocks fc true card (init_store []) blocks)) = Some outs /\
     exists k, out_col outs 0 k = [VInt 7; VInt 8] /\ colview k (nth 0 blocks []) = [VInt 7; VInt 9].
-Proof. exact store_roundtrip_refuted_dupkey. Qed.
-Print Assumptions C01_store_roundtrip_refuted_dupkey.
+Proof. exact prefix_dupkey_refuted. Qed.
+Print Assumptions C01_prefix_dupkey_refuted.
 
 (* REFUTED without "no number together with a number-looking string" (confirmed defect, class
    numeric_string_becomes_number): {"a":5},{"a":"007"},{"a":"1e3"} returns 5, 7, 1000.0 although
@@ -138,7 +177,7 @@ Print Assumptions C01_store_roundtrip_refuted_dupkey.
 Theorem C01_store_roundtrip_refuted_numstring :
   exists fc card blocks outs,
     Forall (Forall (fun e => event_ok e = true)) blocks /\
-    read_all (fst (ingest_blocks fc card (init_store []) blocks)) = Some outs /\
+    read_all (fst (ingest_blocks fc false card (init_store []) blocks)) = Some outs /\
     exists k, colview k (nth 0 blocks []) = [VInt 5; VStr [48;48;55]; VStr [49;101;51]] /\
               out_col outs 0 k = [VInt 5; VInt 7; VFloat 4652007308841189376].
 Proof. exact store_roundtrip_refuted_numstring. Qed.
@@ -150,7 +189,7 @@ Print Assumptions C01_store_roundtrip_refuted_numstring.
 Theorem C01_store_roundtrip_refuted_bool_number :
   exists fc card blocks outs,
     Forall (Forall (fun e => event_ok e = true)) blocks /\
-    read_all (fst (ingest_blocks fc card (init_store []) blocks)) = Some outs /\
+    read_all (fst (ingest_blocks fc false card (init_store []) blocks)) = Some outs /\
     exists k, colview k (nth 0 blocks []) = [VNull; VBool true; VInt 5] /\
               out_col outs 0 k = [VNull; VStr s_true; VStr [53]].
 Proof. exact store_roundtrip_refuted_bool_number. Qed.
